@@ -337,10 +337,13 @@ Definition nagree (c : ncase) : bool :=
 Definition tree_inv_b (c : ncase) (t : itree) : bool :=
   negb (0 <? t_n t) || lookup_good (nc_good c) (t_p1 t).
 
-(** the property on the implementation's output: [n_iter] states; from a good start and with
+(** the property on the implementation's output: the logged run is a run of the algorithm (the
+    chain is the replayed chain, every internal node combined its subtrees as Algorithm 6 says:
+    [nagree]); [n_iter] states; from a good start and with
     slice variables that are not -inf, every returned state and every selectable subtree
     proposal has a target that is neither -inf nor nan *)
 Definition nok (c : ncase) : bool :=
+  nagree c &&
   match nc_impl c with
   | NIBadInit => nc_tinf c
   | NIChain l =>
